@@ -18,7 +18,7 @@ var yamlFaults = []string{"  @bad: 1", "k: 1: 2", "k: [1, 2", "k: {a: 1"}
 // faults go-yaml reports without any index (plain errors): the command then prints line 1 and an empty message
 var yamlFaultsNoIndex = []string{"k: *unknown", "k: !!int abc"}
 
-func yamlDoc(r *common.Rand, nLines int, eol string) []string {
+func yamlDoc(r *common.Rand, nLines int) []string {
 	var ls []string
 	for k := 0; len(ls) < nLines; k++ {
 		switch r.Intn(6) {
@@ -42,91 +42,117 @@ func yamlDoc(r *common.Rand, nLines int, eol string) []string {
 	return ls
 }
 
+type yamlRun struct {
+	st          *common.Stream
+	orc         *common.Oracle
+	distinct    map[string]bool
+	lines, impl []string
+}
+
+// one text = lines ls joined by eol, with the fault on line at+1
+func (y *yamlRun) run(ls []string, eol string, at int, fault string, seek, noIndex bool) {
+	text := strings.Join(ls, eol) + eol
+	// correspondence: index -> position
+	var idx int
+	var errText string
+	var ok bool
+	if seek {
+		idx, errText, ok = cli.VerifC17YAMLError(strings.NewReader(text), "f.yaml")
+	} else {
+		idx, errText, ok = cli.VerifC17YAMLError(&scriptReader{data: []byte(text), sizes: []int{4096}}, "f.yaml")
+	}
+	if !ok || idx < 0 {
+		y.orc.Distribution["accepted-or-other-error"]++
+		return
+	}
+	rep := parseReport(errText, "yaml", "f.yaml")
+	assertWidth(rep.excerpt)
+	y.lines = append(y.lines, fmt.Sprintf("x%x %d", text, idx))
+	y.impl = append(y.impl, rep.wire())
+	y.st.Distribution[fmt.Sprintf("fault=%q", fault)]++
+
+	// oracle through the command
+	tr := transport{"script", []int{4096}}
+	if seek {
+		tr = transport{"file", nil}
+	}
+	stderr, name := cliJSON([]byte(text), tr, "--yaml-input")
+	rep2 := parseReport(stderr, "yaml", name)
+	y.orc.Cases++
+	y.distinct[fmt.Sprintf("%s|%s|%s|%d", fault, tr.name, eolName(eol), at/100)] = true
+	y.orc.Distribution[fmt.Sprintf("%s:%s:lines<%d", tr.name, eolName(eol), sizeClass(len(ls)))]++
+	want := at + 1
+	if rep2.ok && rep2.line == want && strings.Contains(fault, rep2.excerpt) {
+		return
+	}
+	key := fmt.Sprintf("lineinfo:yaml:%q:%s", fault, tr.name)
+	if noIndex {
+		key = "yaml-error-without-index"
+	} else if asc := asciiOnly(text); asc != text {
+		// go-yaml's Index counts characters, the command uses it as a byte offset: the report is this
+		// class iff the same text with every multi-byte character replaced by one byte is reported correctly
+		stderr3, name3 := cliJSON([]byte(asc), tr, "--yaml-input")
+		if rep3 := parseReport(stderr3, "yaml", name3); rep3.ok && rep3.line == want && strings.Contains(fault, rep3.excerpt) {
+			key = "yaml-index-counts-characters"
+		}
+	}
+	stderr = strings.ReplaceAll(stderr, tmpDir, "$TMP")
+	rp := map[string]any{"fault_line": fault, "line": want, "total_lines": len(ls), "terminator": eolName(eol), "transport": tr.name, "observed": stderr}
+	if len(text) <= 300 {
+		rp["input"] = text
+		rp["cmd"] = fmt.Sprintf("printf %%s %q | gojq --yaml-input .", text)
+	} else {
+		rp["input_hex"] = fmt.Sprintf("%x", clipBytes(text, 100000))
+		rp["cmd"] = "xxd -r -p <<< $input_hex > in.yaml; gojq --yaml-input empty in.yaml"
+	}
+	ctx.Violate(key, fmt.Sprintf("--yaml-input: fault %q on line %d of %d reported as %s", fault, want, len(ls), clip(strings.ReplaceAll(stderr, "\n", "\\n"), 160)), rp)
+}
+
+func sizeClass(n int) int {
+	for _, c := range []int{10, 100, 1000} {
+		if n < c {
+			return c
+		}
+	}
+	return 10000
+}
+
 func yamlChecks() {
-	st := ctx.NewStream("yaml", "Gojq.Cli.yamlReport (getLineByOffset(contents, index+1))",
-		"yamlParseError.Error of the real yamlInputIter for YAML texts (20–3000 lines, LF/CRLF, seekable and not) with one faulty line; the model is given the index go-yaml reported; distinct = distinct implementation answers")
-	orc := ctx.NewOracle("yaml-line",
-		"`gojq --yaml-input empty` (file and non-seekable stdin, LF/CRLF, 20–3000 lines, some multi-document) with one line replaced by a fault whose place go-yaml reports on that line ("+strings.Join(quoteAll(yamlFaults), ", ")+"): the printed line number must be the faulty line and the excerpt must be part of it; faults go-yaml reports without an index ("+strings.Join(quoteAll(yamlFaultsNoIndex), ", ")+") are judged the same way; distinct = distinct (fault, transport, terminator, line/100)")
+	y := &yamlRun{distinct: map[string]bool{}}
+	y.st = ctx.NewStream("yaml", "Gojq.Cli.yamlReport (getLineByOffset(contents, index+1))",
+		"yamlParseError.Error of the real yamlInputIter for YAML texts (3–3000 lines, LF/CRLF, seekable and not) with one faulty line; the model is given the index go-yaml reported; distinct = distinct implementation answers")
+	y.orc = ctx.NewOracle("yaml-line",
+		"`gojq --yaml-input empty` (file and non-seekable stdin, LF/CRLF, 3–3000 lines, some multi-document, multi-byte characters in values) with one top-level line replaced by a fault whose place go-yaml reports on that line ("+strings.Join(quoteAll(yamlFaults), ", ")+"): the printed line number must be the faulty line and the excerpt part of it; faults go-yaml reports without an index ("+strings.Join(quoteAll(yamlFaultsNoIndex), ", ")+") are judged the same way; distinct = distinct (fault, transport, terminator, line/100)")
 	r := ctx.R.Fork(8)
-	distinct := map[string]bool{}
-	var lines, impl []string
-	n := ctx.N(260, 3000)
-	for i := 0; i < n; i++ {
+	// fixed cases first (the replays quoted for the known defect classes)
+	y.run([]string{"a: \"漢漢漢漢\"", "b: 1", "c: 1: 2", "d: 3"}, "\n", 2, "c: 1: 2", false, false)
+	y.run([]string{"a: 1", "b: *unknown", "c: 3"}, "\n", 1, "b: *unknown", false, true)
+	y.run([]string{"a: 1", "b: !!int abc", "c: 3"}, "\n", 1, "b: !!int abc", true, true)
+	n := ctx.N(150, 1500)
+	for i := 0; y.orc.Cases < n && i < 30*n; i++ {
 		eol := common.Pick(r, []string{"\n", "\r\n"})
 		nl := common.Pick(r, []int{20, 60, 400, 1500, 3000})
 		if !ctx.Thorough && nl > 400 && i%4 != 0 {
 			nl = 60
 		}
-		ls := yamlDoc(r, nl, eol)
+		ls := yamlDoc(r, nl)
 		noIndex := i%10 == 9
 		fault := common.Pick(r, yamlFaults)
 		if noIndex {
 			fault = common.Pick(r, yamlFaultsNoIndex)
 		}
 		at := r.Intn(len(ls))
-		if at == 0 || ls[at] == "---" || strings.HasPrefix(ls[at], "  ") || (at+1 < len(ls) && strings.HasPrefix(ls[at+1], "  ")) ||
-			ls[at-1] == "---" || strings.HasPrefix(ls[at-1], "  ") || strings.HasSuffix(ls[at-1], ":") ||
-			(at+1 < len(ls) && (ls[at+1] == "---" || strings.HasSuffix(ls[at+1], ":"))) {
-			continue // keep the fault at top level so that its place is unambiguous
+		simple := func(l string) bool { return l != "---" && !strings.HasPrefix(l, "  ") && !strings.HasSuffix(l, ":") }
+		// keep the fault between plain top-level `key: value` lines so that its place is unambiguous
+		if at == 0 || at+1 >= len(ls) || !simple(ls[at-1]) || !simple(ls[at]) || !simple(ls[at+1]) {
+			continue
 		}
 		ls[at] = fault
-		text := strings.Join(ls, eol) + eol
-		seek := r.Bool()
-
-		// correspondence
-		var idx int
-		var errText string
-		var ok bool
-		if seek {
-			idx, errText, ok = cli.VerifC17YAMLError(strings.NewReader(text), "f.yaml")
-		} else {
-			idx, errText, ok = cli.VerifC17YAMLError(&scriptReader{data: []byte(text), sizes: []int{4096}}, "f.yaml")
-		}
-		if !ok || idx < 0 {
-			orc.Distribution["accepted-or-other-error"]++
-			continue
-		}
-		rep := parseReport(errText, "yaml", "f.yaml")
-		assertWidth(rep.excerpt)
-		lines = append(lines, fmt.Sprintf("x%x %d", text, idx))
-		impl = append(impl, rep.wire())
-		st.Distribution[fmt.Sprintf("fault=%q", fault)]++
-
-		// oracle through the command
-		tr := transport{"script", []int{4096}}
-		if seek {
-			tr = transport{"file", nil}
-		}
-		stderr, name := cliJSON([]byte(text), tr, "--yaml-input")
-		rep2 := parseReport(stderr, "yaml", name)
-		orc.Cases++
-		distinct[fmt.Sprintf("%s|%s|%s|%d", fault, tr.name, eolName(eol), at/100)] = true
-		orc.Distribution[fmt.Sprintf("%s:%s:lines=%d", tr.name, eolName(eol), nl)]++
-		want := at + 1
-		okLine := rep2.ok && rep2.line == want && strings.Contains(fault, rep2.excerpt)
-		if okLine {
-			continue
-		}
-		key := fmt.Sprintf("lineinfo:yaml:%q:%s", fault, tr.name)
-		if noIndex {
-			key = "yaml-error-without-index"
-		} else if asc := asciiOnly(text); asc != text {
-			// go-yaml's Index counts characters, the command uses it as a byte offset: the report is
-			// this class iff the same text with every multi-byte character replaced by one byte is reported correctly
-			stderr3, name3 := cliJSON([]byte(asc), tr, "--yaml-input")
-			if rep3 := parseReport(stderr3, "yaml", name3); rep3.ok && rep3.line == want && strings.Contains(fault, rep3.excerpt) {
-				key = "yaml-index-counts-characters"
-			}
-		}
-		stderr = strings.ReplaceAll(stderr, tmpDir, "$TMP")
-		ctx.Violate(key, fmt.Sprintf("--yaml-input: fault %q on line %d of %d reported as %s", fault, want, len(ls), clip(strings.ReplaceAll(stderr, "\n", "\\n"), 160)),
-			map[string]any{"fault_line": fault, "line": want, "total_lines": len(ls), "terminator": eolName(eol), "transport": tr.name, "observed": stderr,
-				"input_hex": fmt.Sprintf("%x", clipBytes(text, 100000)), "cmd": "xxd -r -p <<< $input_hex > in.yaml; gojq --yaml-input empty in.yaml"})
+		y.run(ls, eol, at, fault, r.Bool(), noIndex)
 	}
-	orc.Distinct = len(distinct)
-	orc.Distribution["note: texts contain 漢é in string values before the fault"] = 1
-	orc.Samples = []string{"3000-line mapping, line 1501 replaced by `\\tx: 1`, through a pipe", "`k: *unknown` (go-yaml error without index)"}
-	ctx.RunStream(st, lines, impl)
+	y.orc.Distinct = len(y.distinct)
+	y.orc.Samples = []string{"3000-line mapping, line 1501 replaced by `k: 1: 2`, through a pipe", "`k: *unknown` (go-yaml error without index)"}
+	ctx.RunStream(y.st, y.lines, y.impl)
 }
 
 func asciiOnly(s string) string {
